@@ -78,6 +78,14 @@ MUTANTS = [
     dict(id='c09-multi-mv-transpose', property='C09', file='fggs/multi.py', old="                c.add_single(y, axy.T.mv(bx, semiring).reshape(jshapes[y]))", new="                c.add_single(y, axy.mv(bx, semiring).reshape(jshapes[y])) if ishapes[x] == jshapes[y] else c.add_single(y, axy.T.mv(bx, semiring).reshape(jshapes[y]))"),
     dict(id='c09-order-reversed-must-not-fire', property='C09', file='fggs/multi.py', old="    return linking_nonterminals + list(nonlinking_nonterminals)", new="    return list(reversed(linking_nonterminals + list(nonlinking_nonterminals)))", expect='silent'),
     dict(id='c09-solve-return-b-alias', property='C09', file='fggs/indices.py', old="                return b.clone() # a*b = 0, so x = b", new="                raise AssertionError"),
+    # ---- C11
+    dict(id='c11-assert-computes', property='C11', file='fggs/sum_product.py', old="    out = multiply_in_disconnected_internals(out, nodes, connected, ext, semiring, fgg)\n\n    assert(out.physical.dtype == semiring.dtype)\n    return out",
+         new="    old = out\n    assert (out := multiply_in_disconnected_internals(out, nodes, connected, ext, semiring, fgg)) is not None\n\n    assert(out.physical.dtype == semiring.dtype)\n    return out"),
+    dict(id='c11-debug-guards-squeeze', property='C11', file='fggs/indices.py', old="            subst = {k:unitAxis for k in self.paxes if k._numel == 1}\n            if subst:", new="            subst = {k:unitAxis for k in self.paxes if k._numel == 1} if __debug__ else {}\n            if subst:", expect='silent'),   # breaks a representation invariant under -O only, answers unchanged
+    dict(id='c11-downgrade-to-linear-too-eager', property='C11', file='fggs/sum_product.py', old="        elif max_rhs == 1 and opts['method'] == 'newton':", new="        elif max_rhs <= 2 and opts['method'] == 'newton':"),
+    dict(id='c11-float32-tol-path', property='C11', file='fggs/multi.py', old="                    if not t.allclose(other[k], atol=tol, rtol=0.): return False", new="                    if not t.allclose(other[k], atol=tol if t.dtype == torch.float64 else 1e-2, rtol=0.): return False"),
+    dict(id='c11-newton-no-clamp-must-not-fire', property='C11', file='fggs/sum_product.py', old="        x0 += dX\n        x0.maximum_(F0)", new="        x0 += dX", expect='silent'),
+    dict(id='c11-log-add-is-max', property='C11', file='fggs/semirings.py', old="    @staticmethod\n    def add(x: TensorLikeT, y: TensorLikeT) -> TensorLikeT:\n        return x.logaddexp(y)", new="    @staticmethod\n    def add(x: TensorLikeT, y: TensorLikeT) -> TensorLikeT:\n        return x.maximum(y)"),
     # ---- C16
     dict(id='c16-copy-shares-nodes-dict', property='C16', file='fggs/fggs.py', old='        copy._nodes = dict(self._nodes)', new='        copy._nodes = self._nodes'),
     dict(id='c16-remove-node-no-ext-guard', property='C16', file='fggs/fggs.py', old="        if node in self.ext:\n            raise ValueError", new="        if False and node in self.ext:\n            raise ValueError"),
